@@ -26,7 +26,7 @@ CLAIMED = {
             "node; who-may-write the id counter and node table), CFG must-pass-through of optimize_remaining_by_size "
             "before every hand-out of a path, path-sensitive guard of flops-limited runs, completion branches of the "
             "tree builders on every path, guard of the one-community partition result"
-            "; coverage of the leftover heap; dominance of every builder return by its completing loop; copy-completeness of the path simulator (each slot from the same slot of the source); guard analysis of constant subscripts on the caller's explicit path; positive-floor analysis of logarithm arguments fed by a zero-initialised counter; typestate of the set of nodes still to divide incl. its initial state; sibling progress-escape of partition-driven loops; CFG must-pass-through of a keyed store between an empty tally and the pick; sign-domain analysis of logarithm arguments in the greedy score; memoised factories of result-carrying optimizers (shared with C16)"),
+            "; coverage of the leftover heap; dominance of every builder return by its completing loop; copy-completeness of the path simulator (each slot from the same slot of the source); guard analysis of constant subscripts on the caller's explicit path; positive-floor analysis of logarithm arguments fed by a zero-initialised counter; typestate of the set of nodes still to divide incl. its initial state; sibling progress-escape of partition-driven loops; CFG must-pass-through of a keyed store between an empty tally and the pick; sign-domain analysis of logarithm arguments in the greedy score; memoised factories of result-carrying optimizers (shared with C16); end-to-end evaluation of the greedy and optimal finders with the processor class on every small network, the returned paths replayed (DESIGN E9)"),
     "C06": ("4 C06", "write-discipline of the sliced-index table (sorted rebuild only, SliceInfo field order) and pairing "
             "of sliced_inputs updates, chunk-key/slice-number agreement, exponent-aware combination sites"
             "; partial evaluation of every enumeration of slice numbers; recurrence of the strides and digit/remainder order of the mixed-radix decoding; storage ownership of yielded chunks; may-alias analysis of in-place writes in the adder and the gatherer (parameters, unpackings, elements, iteration); evaluation of the slice-number decoding over every bounded table (bijection onto the value combinations, DESIGN E9)"),
